@@ -88,6 +88,28 @@ def depth(f):
     return 1 + max([depth(c) for c in children(f)] + [0])
 
 
+def cost1(f, n):
+    """estimated number of leaf evaluations of the naive specification evaluator rho at one time point"""
+    op = f[0]
+    k = [cost1(c, n) for c in children(f)]
+    if op in ('var', 'const', 'ref'):
+        return 1
+    if op in ('once', 'hist', 'ev', 'alw'):
+        return n * k[0]
+    if op in ('since', 'until'):
+        return n * k[1] + (n * n // 2 + 1) * k[0]
+    if op in TUN:
+        return (min(f[2], n) - min(f[1], n) + 1) * k[0]
+    if op in TBIN:
+        wdt = min(f[2], n) - min(f[1], n) + 1
+        return wdt * k[1] + wdt * (min(f[2], n) + 1) * k[0]
+    return sum(k) + 1
+
+
+def cost(f, n):
+    return n * size(f) * cost1(f, n)
+
+
 def fvars(f):
     return sorted({s[1] for s in subformulas(f) if s[0] == 'var'})
 
